@@ -11,9 +11,42 @@ def is_env_place(place, field="env"):
     return bool(fl) and fl[-1][0] == INTERP and fl[-1][2] == field and isinstance(place[1][-1], list) and place[1][-1][0] == "f"
 
 
-def saved_locals(f, field="env"):
-    """locals that hold the previous value of self.<field>: clone of it, mem::replace/take result"""
+_entering = {}
+
+
+def scope_entering_helpers(fx, field="env"):
+    """functions that install a new self.<field> and RETURN the previous value (possibly inside a tuple):
+    `let (saved, new) = self.enter_scope()` in the caller is an installation whose saved value is the result"""
+    key = (id(fx), field)
+    if key in _entering:
+        return _entering[key]
+    out = set()
+    _entering[key] = out   # recursion guard: helpers of helpers are not followed
+    for g in fx.fns.values():
+        if g.closure or g.derived or not g.file.startswith("src/interpreter"):
+            continue
+        writes = any(s[0] == "a" and is_env_place(s[1], field) and s[2][0] != "ref" for bl in g.blocks if not bl["c"] for s in bl["s"])
+        if not writes:
+            continue
+        sv = saved_locals(g, field, None)
+        if not sv:
+            continue
+        for bl in g.blocks:
+            for s in bl["s"]:
+                if s[0] == "a" and s[1][0] == 0 and any(o[0] in ("c", "m") and o[1][0] in sv for o in F.rvalue_operands(s[2])):
+                    out.add(g.path)
+    return out
+
+
+def saved_locals(f, field="env", fx=None):
+    """locals that hold the previous value of self.<field>: clone of it, mem::replace/take result, or the
+    result of a scope-entering helper"""
     saved = set()
+    if fx is not None:
+        helpers = scope_entering_helpers(fx, field)
+        for bi, t in f.calls():
+            if t[1].get("d") in helpers and t[3] and not t[3][1]:
+                saved.add(t[3][0])
     for bi, t in f.calls():
         d = t[1].get("d", "")
         if not t[2] or t[3][1]:
@@ -82,8 +115,13 @@ def from_saved_field(f, place, depth=0):
 
 def analyse(fx, f, field="env"):
     """returns (installs, restores, handoffs, saved) with block indices"""
-    saved = saved_locals(f, field)
+    saved = saved_locals(f, field, fx)
     installs, restores, handoffs = [], [], set()
+    # a call of a scope-entering helper is an installation made on this function's behalf
+    helpers = scope_entering_helpers(fx, field)
+    for bi, t in f.calls():
+        if t[1].get("d") in helpers and f.path not in helpers:
+            installs.append((bi, t[6]))
     for bi, bl in enumerate(f.blocks):
         if bl["c"]:
             continue  # unwind (cleanup) copies of the assignment
@@ -114,6 +152,12 @@ def analyse(fx, f, field="env"):
             d = t[1].get("d", "")
             if any(a[0] in ("c", "m") and not a[1][1] and a[1][0] in saved for a in t[2]) and t[1].get("local") and not d.endswith(("cheap_clone", "clone")):
                 handoffs.add(bi)
+            # pushed onto a stack of saved environments (a field whose name says so): the matching pop restores it
+            if d.endswith(("Vec::<T, A>::push", "VecDeque::<T, A>::push_back")) and len(t[2]) == 2 and t[2][0][0] in ("c", "m") \
+                    and t[2][1][0] in ("c", "m") and not t[2][1][1][1] and t[2][1][1][0] in saved:
+                fl = E.field_of_ref(f, t[2][0][1][0])
+                if fl and "saved" in fl[2]:
+                    handoffs.add(bi)
     # mem::replace(&mut self.env, new) is an install whose result is the saved value
     for bi, t in f.calls():
         d = t[1].get("d", "")
